@@ -260,6 +260,10 @@ func runC01(c *Ctx) {
 	checkWriterIntakeClosedWorld(c, "writer.intake-closed-world")
 	checkGenericErrorDiscipline(c, "pkg/cafs")
 	checkReadAtOffsetWithinLeaf(c, "read.offset-within-leaf")
+	checkEmptyObjectReadable(c, "read.empty-object-readable")
+	checkWriterChannelsUnbuffered(c, "flush-order.channels-unbuffered")
+	checkNoStreamInRetry(c, "read.no-stream-in-retry", "pkg/cafs")
+	checkShortReadIsNotEOF(c, "read.short-read-not-eof")
 }
 
 // checkWriterHandoff: ownership of the buffer given to `go pFlush`.
@@ -788,6 +792,7 @@ func runC02(c *Ctx) {
 	checkWriterIntakeClosedWorld(c, "chunking-independence.intake-closed-world")
 	checkFlushGuard(c, "tree-format.empty-tail-adds-no-leaf")
 	checkGenericErrorDiscipline(c, "pkg/cafs")
+	checkWriterChannelsUnbuffered(c, "chunking-independence.channels-unbuffered")
 }
 
 func isFoundAndNotOverwrite(f *FuncInfo, e ast.Expr) bool {
@@ -1307,6 +1312,9 @@ func runC03(c *Ctx) {
 	checkWriteToWorkerExclusive(c, "verify-coverage.writeto-error-exclusive")
 	checkEOFByIdentity(c, "errors-surface.eof-by-identity")
 	checkGenericErrorDiscipline(c, "pkg/cafs", "pkg/storage/localfs")
+	checkShortReadIsNotEOF(c, "verify.short-read-not-eof")
+	checkCacheOnlyVerifiedLeaves(c, "verify.cache-only-verified")
+	checkNoTruncatingConsumer(c, "verify.no-truncating-consumer", "pkg/core", "pkg/fuse")
 }
 
 func fmtConds(conds []string) string {
